@@ -739,6 +739,10 @@ def min_lookup(ctx):
             def visit_Subscript(self, n):
                 self.generic_visit(n)
                 sl = n.slice
+                # X[:] / X[slice(None)]: all of X
+                if U(n.value) in ("self.scores", "self.plate_ids") and ((isinstance(sl, ast.Slice) and sl.lower is None and sl.upper is None and sl.step is None)
+                                                                        or U(sl).replace(" ", "") in ("slice(None)", "slice(None,None)", "slice(None,None,None)", "...")):
+                    return n.value
                 if isinstance(sl, ast.Call) and U(sl.func) == "np.arange" and len(sl.args) == 1 and U(sl.args[0]).replace(" ", "") in (
                         "self.scores.size", "self.plate_ids.size", "len(self.scores)", "len(self.plate_ids)", "self.scores.shape[0]", "self.plate_ids.shape[0]") \
                         and U(n.value) in ("self.scores", "self.plate_ids"):
